@@ -268,6 +268,43 @@ def _compare(ctx, case, o, m):
     return bad
 
 
+def _branch_stats(ctx, e):
+    """which non-default branches of the anchored code a case reaches (goes to evidence.coverage.input_distribution)"""
+    k = e["k"]
+    if k == "sum":
+        keys = [tuple(G.leaf_keys(l)) for l in G.leaves(e)]
+        ctx.stat("sum:shared-key" if len(set(keys)) < len(keys) else "sum:separate-keys")
+        for s_ in e["es"]:
+            _branch_stats(ctx, s_)
+    elif k == "scale":
+        ctx.stat("scale:left" if e.get("left", True) else "scale:right")
+        if e["e"]["k"] == "scale":
+            ctx.stat("scale:nested")
+        _branch_stats(ctx, e["e"])
+    elif k == "ham":
+        ctx.stat("ham:ic" if e.get("ic") else "ham:no-ic")
+        _branch_stats(ctx, e["e"])
+    elif k == "chain":
+        ctx.stat("chain:over-" + ("composite" if e["e"]["k"] in ("sum", "scale", "chain", "lin", "ham") else "leaf"))
+        for f in e["f"].values():
+            ctx.stat("f:" + f["f"])
+        _branch_stats(ctx, e["e"])
+    elif k == "lin":
+        _branch_stats(ctx, e["e"])
+    elif k == "gauss":
+        ctx.stat("gauss:icov=" + e["icov"] + (",cplx" if e.get("cplx") else "") + (",nodata" if e.get("d") is None else ""))
+    elif k == "varcov":
+        ctx.stat("varcov:" + ("cplx" if e["cplx"] else "real") + ("/full-fisher" if e["full"] else "/trafo-metric"))
+    elif k == "sgamma":
+        ctx.stat("sgamma:" + ("cplx" if e.get("cplx") else "real"))
+    elif k == "studentt":
+        ctx.stat("studentt:theta-" + ("field" if isinstance(e["theta"], list) else "scalar"))
+    elif k == "invgamma":
+        ctx.stat("invgamma:alpha-" + ("field" if isinstance(e["alpha"], list) else "scalar"))
+    elif k == "categorical":
+        ctx.stat("categorical:axis=%d" % e.get("axis", 0))
+
+
 def run_cases(ctx, cases, do_oracle=True):
     lines = [G.model_line(c) for c in cases]
     outs = ctx.model(DRIVER, lines)
@@ -280,6 +317,7 @@ def run_cases(ctx, cases, do_oracle=True):
         ctx.stat("dim:%d" % len(G.flatx(c)))
         if any(c["cplx"].values()):
             ctx.stat("complex")
+        _branch_stats(ctx, c["e"])
         o, err = _measure(c)
         if err is not None or "error" in mo:
             ctx.compare(c, {"error": (err or "").split(":")[0]} if err else {"ok": True},
@@ -321,7 +359,23 @@ def run(ctx):
     for kind in sorted(set(G.KINDS)):
         for _ in range(ctx.n(3, 12)):
             cases.append(G.gen_case(ctx.rng, small=True, force_kind=kind, simple=True))
-    for _ in range(ctx.n(60, 700)):
+    # every variant of the branching leaves at least once per run (bare), whatever the seed
+    def ensure(kind, keyfn, values):
+        need, tries = set(values), 0
+        while need and tries < 400:
+            tries += 1
+            c = G.gen_case(ctx.rng, small=True, force_kind=kind, simple=True)
+            v = keyfn(next(G.leaves(c["e"])))
+            if v in need:
+                need.discard(v)
+                cases.append(c)
+    ensure("gauss", lambda l: (l["icov"], bool(l.get("cplx"))),
+           [("none", False), ("scal", False), ("diag", False), ("sand", False), ("none", True), ("diag", True)])
+    ensure("varcov", lambda l: (bool(l["cplx"]), bool(l["full"])), [(a, b) for a in (False, True) for b in (False, True)])
+    ensure("sgamma", lambda l: bool(l.get("cplx")), [False, True])
+    ensure("studentt", lambda l: isinstance(l["theta"], list), [False, True])
+    ensure("invgamma", lambda l: isinstance(l["alpha"], list), [False, True])
+    for _ in range(ctx.n(50, 700)):
         cases.append(G.gen_case(ctx.rng, small=ctx.quick))
     B = 100
     with contextlib.redirect_stdout(io.StringIO()):
